@@ -181,6 +181,11 @@ def malformed():
     for body in ["1", "10", "0x1f", "07", "0b1", "9"]:
         for suf in ["lL", "Ll", "ulL", "uLl", "lLu", "LlU", "wB", "Wb", "uwB", "Wbu"]:
             yield body + suf, "bad:int_suffix_case_mix", "INVALID_SUFFIX"
+    # a suffix of the other family: float suffixes on integers, integer suffixes on floats
+    for s in ["1f", "10F", "7d", "0x1ff" + "q", "3df", "9fi"]:
+        yield s, "bad:int_with_float_suffix", "INVALID_SUFFIX"
+    for s in ["1.0u", "2.5ll", "1e3z", "1.0wb", "0x1p3u", ".5UL", "3.i64", "1.5e2uz"]:
+        yield s, "bad:float_with_int_suffix", "BAD_FLOAT_SUFFIX"
     for s in ["12ab", "1q", "7lul", "1ulll", "5uu", "0x1fg", "0xg", "0XABz1", "12_", "9lL", "3Ll", "10ulu",
               "0b1x", "017q"]:
         yield s, "bad:int_suffix", "INVALID_SUFFIX"
@@ -249,3 +254,25 @@ def conf_float_list():
 
 def conf_char_list():
     return [s for s, f in valid_chars() if f not in CONF_EXCLUDED]
+
+
+def long_constants():
+    """valid constants much longer than any fixed look-ahead a lexer might use"""
+    for n in (30, 63, 64, 65, 66, 100, 300):
+        yield "0b" + "10" * (n // 2) + "1", "int:bin"
+        yield "0b" + "1" * n + "ULL", "int:bin"
+        yield "1" + "0" * n, "int:dec"
+        yield "0x" + "f" * n + "u", "int:hex"
+        yield "0" + "7" * n, "int:oct"
+        yield "3." + "14159265" * (n // 8 + 1) + "L", "float:frac"
+        yield "0." + "0" * n + "89", "float:frac"
+        yield "1" + "0" * n + "e+10", "float:exp"
+        yield "0x0." + "0" * n + "1p+64", "hexfloat:frac"
+
+
+def long_malformed():
+    for n in (64, 65, 100):
+        yield "0b" + "1" * n + "2", "bad:bin_digit", "INVALID_BIN_INT"
+        yield "0" + "7" * n + "8", "bad:oct_digit", "INVALID_OCT_INT"
+        yield "1." + "0" * n + ".5", "bad:dots", "MULTIPLE_DOTS"
+        yield "1." + "0" * n + "q", "bad:float_suffix", "BAD_FLOAT_SUFFIX"
